@@ -175,7 +175,7 @@ def to_alph(n, upper=True):
 # LaTeX counter machine
 # ----------------------------------------------------------------------
 class CounterMachine(object):
-    def __init__(self, cls, secnumdepth, thms):
+    def __init__(self, cls, secnumdepth, thms, ucounters=()):
         self.cls = cls
         self.depth = secnumdepth
         self.book = cls in ("book", "report")
@@ -207,6 +207,11 @@ class CounterMachine(object):
                 if t.get("within"):
                     self.within[t["name"]] = t["within"]
         self.thmnames = set(v for v in self.thm_counter.values() if v)
+        # \newcounter{name}[within] declared in the preamble
+        for u in ucounters or ():
+            self.value[u["name"]] = 0
+            if u.get("within"):
+                self.within[u["name"]] = u["within"]
 
     # -- structure --------------------------------------------------------
     def dependants(self, c):
@@ -319,7 +324,7 @@ class _Emitter(object):
         self.cites = []
         self.bibitems = []
         self.features = set()
-        self.cm = CounterMachine(doc["cls"], doc["secnumdepth"], doc.get("thms") or [])
+        self.cm = CounterMachine(doc["cls"], doc["secnumdepth"], doc.get("thms") or [], doc.get("ucounters") or [])
         self.pending = []            # objects/sections waiting for their first marker
         self.secstack = []           # indices into sections
         self.frames = [None]         # \@currentlabel per open group (object index)
@@ -885,6 +890,12 @@ class _Emitter(object):
                 self.w("\\newtheorem{%s}{%s}[%s]\n" % (t["name"], t["cap"], t["within"]))
             else:
                 self.w("\\newtheorem{%s}{%s}\n" % (t["name"], t["cap"]))
+        for u in d.get("ucounters") or []:
+            self.features.add("user-counter" + ("-within" if u.get("within") else ""))
+            if u.get("within"):
+                self.w("\\newcounter{%s}[%s]\n" % (u["name"], u["within"]))
+            else:
+                self.w("\\newcounter{%s}\n" % u["name"])
         if d.get("title") is not None:
             self.features.add("title")
             self.w("\\title{")
@@ -1254,6 +1265,16 @@ def documents(features=ALL_FEATURES, exclude=(), max_items=14, classes=("article
         ctrnames = [c for c in (["chapter"] if book else []) +
                     ["section", "subsection", "subsubsection", "equation", "figure", "table"]]
         ctrnames += [t["name"] for t in thms if not t["star"] and not t["shared"]]
+        # user counters: \newcounter{uca}[section] etc.; they are stepped/set by the counter commands
+        # and their final value is compared (resetting when the parent is stepped is the point)
+        ucounters = []
+        if "counters" in F and "user-counter" not in X:
+            for i in range(draw(st.integers(0, 2))):
+                ucounters.append({"name": "uc" + "ab"[i],
+                                  "within": draw(st.sampled_from([None, "section", "subsection"] +
+                                                                 (["chapter"] if book else []) +
+                                                                 (["uca"] if i == 1 else [])))})
+            ctrnames += [u["name"] for u in ucounters] * 3
         body = []
         n = draw(st.integers(1, max_items))
         have_chapter = False
@@ -1303,7 +1324,7 @@ def documents(features=ALL_FEATURES, exclude=(), max_items=14, classes=("article
             body.insert(pos, bib)
         doc = {"cls": cls, "secnumdepth": depth,
                "title": draw(inlines(1, True, False, 2)) if ("title" in F and draw(st.booleans())) else None,
-               "thms": thms, "body": body}
+               "thms": thms, "ucounters": ucounters, "body": body}
         return finalize(doc, X)
 
     return document()
@@ -1354,7 +1375,7 @@ def finalize(doc, exclude=()):
 
     # 2. sanitise counter commands against the model (values stay in 0..20 and
     #    Alph-printed counters in 1..26; counters must exist in the class)
-    cm = CounterMachine(doc["cls"], doc["secnumdepth"], doc.get("thms") or [])
+    cm = CounterMachine(doc["cls"], doc["secnumdepth"], doc.get("thms") or [], doc.get("ucounters") or [])
     body = []
     for b in doc["body"]:
         if b["k"] == "ctr":
@@ -1412,7 +1433,7 @@ def finalize(doc, exclude=()):
 def _drop_bad_counter_ops(doc):
     """Remove \\setcounter/\\addtocounter commands that would make a value negative or
     push an \\Alph-printed counter out of 0..25."""
-    cm = CounterMachine(doc["cls"], doc["secnumdepth"], doc.get("thms") or [])
+    cm = CounterMachine(doc["cls"], doc["secnumdepth"], doc.get("thms") or [], doc.get("ucounters") or [])
     out = []
     app = False
     for b in doc["body"]:
